@@ -63,7 +63,7 @@ Definition check_fault_case (strict : bool) (c : faultcase) : N :=
       let '(st', ox, kinds) :=
         match fc_crash c with
         | None => let '(st', x, l) := run_fault_log (plan_of (fc_plan c)) 0%nat h (s_store st) in (st', Some x, log_kinds l)
-        | Some k => run_prefix_log k h (s_store st)
+        | Some k => run_fault_prefix_log (plan_of (fc_plan c)) 0%nat k h (s_store st)
         end in
       if negb (pair_eqb (obs_match strict now) ox (fc_obs c)) then 1001
       else if negb (kinds_eqb kinds (fc_log c)) then 1002
@@ -91,7 +91,7 @@ Definition model_fault_case (c : faultcase) :=
     let '(st', ox, kinds) :=
       match fc_crash c with
       | None => let '(st', x, l) := run_fault_log (plan_of (fc_plan c)) 0%nat h (s_store st) in (st', Some x, log_kinds l)
-      | Some k => run_prefix_log k h (s_store st)
+      | Some k => run_fault_prefix_log (plan_of (fc_plan c)) 0%nat k h (s_store st)
       end in
     Some (tr, ox, kinds, map proj_a (st_asess st'), map proj_g (st_gsess st'),
           snd (run_from w (mkState st' (s_now st)) (S n) (fc_post c)))
@@ -126,6 +126,14 @@ Definition obs_is_tokens (x : obs) : bool :=
 (* the credential an operation presents is the one the first operation after the restart presents again *)
 Definition first_post_succeeds (c : faultcase) : bool :=
   match fc_post_obs c with x :: _ => obs_is_tokens x | [] => false end.
+
+(* the calls of kind k that were performed and not made to fail by the plan *)
+Fixpoint indexed {X} (n : nat) (l : list X) : list (nat * X) :=
+  match l with [] => [] | x :: t => (n, x) :: indexed (S n) t end.
+Definition failed_at (c : faultcase) (i : nat) : bool :=
+  existsb (fun pf => andb (Nat.eqb (fst pf) i) (match snd pf with FErr => true | _ => false end)) (fc_plan c).
+Definition performed (c : faultcase) (k : ckind) : bool :=
+  existsb (fun ik => andb (is_kind_k (snd ik) k) (negb (failed_at c (fst ik)))) (indexed 0 (fc_log c)).
 
 (* operations that present a one-time credential *)
 Definition presents_credential (o : op) : bool :=
@@ -165,7 +173,7 @@ Definition mon_C14 (c : faultcase) : N :=
       match fc_crash c with
       | Some _ =>
           if andb (presents_credential (fc_op c))
-                  (andb (orb (existsb (is_kind_k KADel) (fc_log c)) (existsb (is_kind_k KGSave) (fc_log c)))
+                  (andb (orb (performed c KADel) (performed c KGSave))
                         (first_post_succeeds c)) then 4001 else 0
       | None => 0
       end
@@ -199,7 +207,7 @@ Definition check_dcr_case (c : dcrcase) : N :=
   let '(st', ox, kinds) :=
     match dc_crash c with
     | None => let '(st', x, l) := run_fault_log (plan_of (dc_plan c)) 0%nat h st in (st', Some x, log_kinds l)
-    | Some k => run_prefix_log k h st
+    | Some k => run_fault_prefix_log (plan_of (dc_plan c)) 0%nat k h st
     end in
   if negb (pair_eqb dfout_eqb ox (dc_obs c)) then 1001
   else if negb (kinds_eqb kinds (dc_log c)) then 1002
